@@ -289,6 +289,23 @@ def run(rep, tier):
         okr = len(rets) == 1 and not rets[0]["guards"] and not isinstance(rets[0]["value"], (tuple, sp.Matrix)) and sp.simplify(rets[0]["value"] - Qv * Fn("Zero")(nvar)) == 0 and \
             any(x.get("k") == "ref" and x.get("decl") == rdecl for x in walk(rets[0]["node"]))
         rep.check(okr, "R6.6", "back-transform", "return Q result", "linalg_constrained_qrsolve returns %s (required Q * [0; z] with the Q of constr^T)" % (str(rets[0]["value"])[:160] if rets else None), q.loc(), sample=True)
+    # ---------------------------------------------------------------- R6.8 (shared with C07)
+    import os
+    from rules import C07
+    rep.rule("R6.8", "the bonded rows of the force-matching matrix are Interaction::Grad: for bond and angle (dihedral in the thorough tier) the gradient with respect to every "
+                     "bead equals the derivative of EvaluateVar and the gradients sum to zero (shared with C07 R7.1); a wrong gradient makes bonded force functions "
+                     "that lie in the spline space irreproducible")
+    hostI = os.path.join(front.VERIF, "hosts", "csg_interaction.cc")
+    FI = Facts(front.export([hostI]))
+    rep.units = list(rep.units) + [hostI]
+    ebs = [f_ for f_ in F.funcs if f_.qname.endswith("CGForceMatching::EvalBonded")]
+    eb = ebs[0] if len(ebs) == 1 else None
+    if eb is None or not any(n.get("k") == "mcall" and (n.get("callee") or "").endswith("Interaction::Grad") for n in eb.walk()):
+        rep.broken("R6.8", "CGForceMatching::EvalBonded no longer takes its matrix rows from Interaction::Grad")
+    else:
+        rep.analysed(eb)
+        for cls, nb in (("IBond", 2), ("IAngle", 3)) + ((("IDihedral", 4),) if tier == "thorough" else ()):
+            C07.check_interaction(AliasRep(rep, {"R7.1": "R6.8", "R7.2": "R6.8"}), FI, cls, nb, symbolic=(cls != "IDihedral"))
     # ---------------------------------------------------------------- R6.7 (shared with C12)
     from rules import splinelib
     rep.rule("R6.7", "the spline space used by csg_fmatch: cubic basis interpolates, the constraint rows of AddBCToFitMatrix are the C1 "
